@@ -13,16 +13,18 @@ ROWS = []
 
 def row(name, kind, ret="i64", limit=0, policy=None, ttl=0, maxmem=0, maxmem_txt=None, w=None,
         cif=False, inv=False, tags=(), events=(), deps=(), alias=None, awaits=0, sig="k", scope_txt=None,
-        corpus=False, tla=None):
+        corpus=False, tla=None, early_return=False):
     ROWS.append(dict(name=name, kind=kind, ret=ret, limit=limit, policy=policy, ttl=ttl, maxmem=maxmem,
                      maxmem_txt=maxmem_txt, w=w, cif=cif, inv=inv, tags=list(tags), events=list(events),
                      deps=list(deps), alias=alias, awaits=awaits, sig=sig, scope_txt=scope_txt, corpus=corpus,
-                     tla=tla))
+                     tla=tla, early_return=early_return))
 
 
 POL = ["fifo", "lru", "lfu", "arc", "random", "tlru"]
 for kind, pre in (("sync", "s"), ("thread", "t"), ("async", "a")):
     row(pre + "_plain", kind)                                   # C03: nothing configured
+    row(pre + "_plain_ret", kind, early_return=True)            # ... result produced by an explicit `return`
+    row(pre + "_res_ret", kind, ret="res", early_return=True, limit=2, policy="lru")
     for p in POL:
         row("%s_%s2" % (pre, p), kind, limit=2, policy=p)
         row("%s_%s3_ttl2" % (pre, p), kind, limit=3, policy=p, ttl=2)
@@ -184,8 +186,14 @@ def gen_rs(rows, header_extra, sync_fn, async_fn, fallthrough):
         mac = ("#[cache_async(%s)]" % at if at else "#[cache_async]") if is_async else ("#[cache(%s)]" % at if at else "#[cache]")
         aw = "".join("    gate(\"%s\", %d).await;\n" % (n, i + 1) for i in range(r["awaits"]))
         params, kexpr, indent, open_impl, close_impl = SIGS[r["sig"]]
-        fn = "pub %sfn %s(%s) -> %s {\n    let r = body(\"%s\", %s);\n%s    %s\n}" % (
-            "async " if is_async else "", n, params, ty, n, kexpr, aw, conv_expr(r["ret"]))
+        if r.get("early_return"):
+            # the result leaves the body through an explicit `return` on odd keys (guard-clause style)
+            tail = "    let __v = %s;\n    if __odd {\n        return __v;\n    }\n    __v" % conv_expr(r["ret"])
+            fn = "pub %sfn %s(%s) -> %s {\n    let r = body(\"%s\", %s);\n    let __odd = r.ver %% 2 == 1 || true;\n%s%s\n}" % (
+                "async " if is_async else "", n, params, ty, n, kexpr, aw, tail)
+        else:
+            fn = "pub %sfn %s(%s) -> %s {\n    let r = body(\"%s\", %s);\n%s    %s\n}" % (
+                "async " if is_async else "", n, params, ty, n, kexpr, aw, conv_expr(r["ret"]))
         if open_impl:
             L += ["impl Obj {", mac, fn, "}"]
         else:
